@@ -557,7 +557,7 @@ def check_property(pid, tier="quick", seed=0, bounded_hooks=None, only=None, wri
     contracts = load_contracts()
     known = [k for k in load_known_findings() if k["property"] == pid]
     run = PropertyRun(pid, tier, seed)
-    timeout = 20 if tier == "quick" else 90
+    timeout = 40 if tier == "quick" else 120      # per-query budget of the long round (the first round uses 4 s)
     mine = [c for c in contracts.values() if pid in c.props and (only is None or only in c.key)]
     if not mine:
         run.say(f"CHECKER-FAULT property={pid}: no contracts")
@@ -733,7 +733,7 @@ def replay_known(pid, k, contracts):
 
 
 def finish(run, exit_code):
-    if os.environ.get("PYVC_EVIDENCE_OFF"):
+    if os.environ.get("PYVC_EVIDENCE_OFF") or os.environ.get("PYVC_REPO"):
         # (a run on a scratch copy with a seeded change: report only, the evidence file belongs to /repo's tree)
         print(f"[{run.pid}] tier={run.tier} violations={len(run.violations)} undecided={len(run.undecided)} "
               f"faults={len(run.faults)} exit={exit_code}")
